@@ -185,6 +185,10 @@ def build_scen(config="asan"):
                         extra_cflags=["-DVCHILD_EMBEDDED"])
 
 
+def build_mt(config="tsan"):
+    return build_engine(config, "mt", ["mt.c", "msg.c"])
+
+
 def build_win(config="asan"):
     """C18: the Windows sources compiled on Linux against stubs/windows.h, allocation calls wrapped."""
     cfg = CONFIGS[config]
